@@ -208,6 +208,12 @@ def run(ctx):
     r38(ctx, prog)
     r39(ctx, prog)
     r32_witness(ctx, prog)
+    # R3.11 the compound forms `a op= b` apply the same arithmetic: what the mutable dispatcher stores is exactly the value the
+    # (R3-checked) arm of the plain operator returned for (old value, right operand) - no comparison, rounding or skipping in
+    # between (a store skipped when `result == old` loses the sign of a float zero).  The C04 R4.4 case analysis, reported here.
+    from rules.c04 import r44
+    from rules.c05 import _Renamed
+    r44(_Renamed(ctx, 'R3.11'), prog)
     ctx.sample(dict(rule='R3.2', Add_Int_Int='Result::map(EvalexprInt::checked_add($a, $b), Value::Int)', Add_Int_Float='Ok(Value::Float(Add::add(int_as_float($a), $b)))'))
 
 
